@@ -160,6 +160,12 @@ static void op_group(struct hx *h, struct hx_result *res)
     hwloc_bitmap_free(inroot); tv_view_free(&vw);
   }
   snprintf(res->desc, sizeof res->desc, "insert_group(%s, kind=%u subkind=%u dont_merge=%u%s)", what, g->attr->group.kind, g->attr->group.subkind, g->attr->group.dont_merge, eq ? ", same cpuset as an existing object" : "");
+  if (h->no_fragile_groups && ((eq && dm) || cls == 5 || cl)) {
+    hwloc_topology_free_group_object(t, g);
+    res->rc = -1; res->err = 0; res->must_be_unchanged = 1;
+    snprintf(res->cls, sizeof res->cls, "group.fragile_shape_skipped");
+    return;
+  }
   errno = 0;
   hwloc_obj_t got = hwloc_topology_insert_group_object(t, g);
   res->err = errno; res->rc = got ? 0 : -1;
